@@ -33,7 +33,9 @@ B == Ref("b")
 LeafL(e, rows) == Leaf("L", e, {"a", "b"}, Len(rows), Len(rows))
 LeafZ(e) == [k |-> "leaf", id |-> "Z", eng |-> e, cols |-> {"a", "b"}, min |-> 0, max |-> 0, msgs |-> 1]
 Engines == {"sql", "it1", "it2"}
-Env == [L |-> l1, Z |-> <<>>]
+LeafI(e) == Leaf("I", e, {}, 1, 1)
+Env == [L |-> l1, Z |-> <<>>, I |-> << <<>> >>]
+JoinIPred == Cmp("eq", A, Lit(1))
 TotalAB == <<Term(A, TRUE), Term(B, FALSE)>>
 
 BuildOps == {Sel(Cmp("eq", A, Lit(1))), Sel(Cmp("eq", A, Lit(5))), Dedup, Sort(TotalAB), Slice(0, 2), Proj({"a"}), Proj({}),
@@ -49,6 +51,8 @@ BuildCalls(r, h) ==
       \cup (IF NMats(h) < 2 THEN {[f |-> "mat", name |-> MatName(h)]} ELSE {})
       \cup (IF Cols(r) = {"a", "b"} THEN {[f |-> "chainz"], [f |-> "chainzl"]} ELSE {})
       \cup (IF Len(h) >= 1 THEN {[f |-> "chainself"]} ELSE {})
+      \* join with the SQL engine's join-identity relation under a predicate (the join node stays, F14)
+      \cup (IF KindOf(Eng(r)) = "sql" /\ "a" \in Cols(r) THEN {[f |-> "joini"]} ELSE {})
 
 CallResult(c, r) ==
     CASE c.f = "un"   -> ApplyUnary(c.op, r, DefaultOpts)
@@ -57,10 +61,12 @@ CallResult(c, r) ==
       [] c.f = "chainz" -> ApplyBinary(ChainOp, r, IF KindOf(Eng(r)) = "sql" THEN PlainSel(LeafZ(Eng(r))) ELSE LeafZ(Eng(r)))
       [] c.f = "chainzl" -> ApplyBinary(ChainOp, IF KindOf(Eng(r)) = "sql" THEN PlainSel(LeafZ(Eng(r))) ELSE LeafZ(Eng(r)), r)
       [] c.f = "chainself" -> ApplyBinary(ChainOp, r, r)
+      [] c.f = "joini" -> JoinRel(r, PlainSel(LeafI(Eng(r))), JoinIPred, TRUE, FALSE)
 
 CallRows(c, rows) ==
     CASE c.f = "un" -> ApplyOp(c.op, rows)
       [] c.f = "chainself" -> rows \o rows
+      [] c.f = "joini" -> ApplyOp(Sel(JoinIPred), rows)
       [] OTHER -> rows
 
 MatNodes(t) == {n \in Nodes(t) : n.k = "mat"}
